@@ -246,7 +246,7 @@ func vC20(steps, maxNames, maxLen int, stubFails bool) {
 }
 
 func VerifC20_Quick()    { vC20(2, 3, 1, false) }
-func VerifC20_Thorough() { vC20(3, 3, 2, true) }
+func VerifC20_Thorough() { vC20(2, 2, 2, true) }
 
 // long sequences over a small alphabet of walk name lists (maxNames == 0 selects it)
 func VerifC20_DeepQuick()    { vC20(4, 0, 3, false) }
